@@ -116,6 +116,7 @@ type bucketData struct {
 	lastModified time.Time
 	versionID    gofakes3.VersionID
 	deleteMarker bool
+	nullVersion  bool // created while versioning was not enabled (S3's "null" version)
 	body         []byte
 	hash         []byte
 	etag         string
@@ -225,7 +226,39 @@ func (b *bucket) put(name string, item *bucketData) {
 		}
 	}
 
+	item.nullVersion = b.versioning != gofakes3.VersioningEnabled
+	if item.nullVersion && object.data != nil && !object.data.nullVersion {
+		// Only the "null" version is replaced while versioning is not enabled;
+		// a version created while it was enabled stays retrievable.
+		object.archiveCurrent()
+	}
+
 	object.data = item
+}
+
+// archiveCurrent moves the current version into the version history.
+func (b *bucketObject) archiveCurrent() {
+	if b.versions == nil {
+		b.versions = skiplist.NewCustomMap(func(l, r interface{}) bool {
+			return l.(gofakes3.VersionID) < r.(gofakes3.VersionID)
+		})
+	}
+	b.versions.Set(b.data.versionID, b.data)
+}
+
+// promoteNewest makes the most recently created remaining version the current
+// one after the current version has been removed.
+func (b *bucketObject) promoteNewest() {
+	if b.data != nil || b.versions == nil || b.versions.Len() == 0 {
+		return
+	}
+	last := b.versions.SeekToLast()
+	if last == nil {
+		return
+	}
+	b.data = last.Value().(*bucketData)
+	b.versions.Delete(last.Key())
+	last.Close()
 }
 
 func (b *bucket) rm(name string, at time.Time) (result gofakes3.ObjectDeleteResult, rerr error) {
@@ -241,10 +274,19 @@ func (b *bucket) rm(name string, at time.Time) (result gofakes3.ObjectDeleteResu
 		result.IsDeleteMarker = true
 		result.VersionID = item.versionID
 
+	} else if object.data != nil && !object.data.nullVersion {
+		// Versioning is suspended and the current version was created while it
+		// was enabled: hide it behind a delete marker instead of dropping it.
+		item := &bucketData{lastModified: at, name: name, deleteMarker: true}
+		b.put(name, item)
+		result.IsDeleteMarker = true
+
 	} else {
 		object.data = nil
 		if object.versions == nil || object.versions.Len() == 0 {
 			b.objects.Delete(name)
+		} else {
+			object.promoteNewest()
 		}
 	}
 
@@ -260,6 +302,7 @@ func (b *bucket) rmVersion(name string, versionID gofakes3.VersionID, at time.Ti
 		result.VersionID = versionID
 		result.IsDeleteMarker = object.data.deleteMarker
 		object.data = nil
+		object.promoteNewest()
 
 	} else if object.versions != nil {
 		versionIface, ok := object.versions.Delete(versionID)
